@@ -325,6 +325,19 @@ pub fn run(ctx: &Ctx) -> i32 {
         st.count("uniform_small_words");
         rebuild_case(st, &tcs, Settings::new(REP | if i % 5 == 0 { NOEND } else { 0 }), 4, &mut rng);
     });
+    // medium-sized inputs (many test cases / long test cases): size-dependent code paths
+    let n = if ctx.thorough { 20_000 } else { 300 };
+    par_for(&ctx.run, n, |i, st| {
+        let mut rng = Rng::new(seed, 0x105_0000 + i as u64);
+        let al = &alphabets[i % alphabets.len()];
+        let tcs: Vec<String> = gen::medium_family(&mut rng, al).into_iter().filter(|t| !t.is_empty()).collect();
+        if tcs.is_empty() {
+            return;
+        }
+        st.count("medium_sized_rebuilds");
+        let s = Settings::new(if i % 2 == 0 { REP } else { 0 } | if i % 5 == 0 { CI } else { 0 } | if i % 7 == 0 { NOEND } else { 0 });
+        rebuild_case(st, &tcs, s, 3, &mut rng);
+    });
     // exhaustive small sets with repetition conversion: all permutations of up to 4 words
     let words: Vec<String> = gen::words(&["a", "b"], 3).into_iter().filter(|w| !w.is_empty()).collect();
     let subs = gen::subsets(words.len(), 3);
